@@ -3,6 +3,7 @@ import GenlmModel.Proofs.AgendaM
 import GenlmModel.Proofs.Zn
 import GenlmModel.Proofs.Norm
 import GenlmModel.Proofs.LimKleene
+import GenlmModel.Proofs.Tarjan
 /-! # C08 — total weights are the least solution of the grammar equations -/
 namespace Genlm.Props.C08
 /-- the driver's table is the Kleene iterate `ZN` -/
@@ -36,4 +37,7 @@ alias string_weights_fixed_point := Genlm.WL_fixed_point
 alias string_weights_least := Genlm.WL_least
 /-- a terminated chaotic agenda iteration (any scheduler) returns exactly the least solution -/
 alias agenda_result_is_least_solution := Genlm.agenda_result_is_ZL
+
+/-- the SCC order the agenda evaluator relies on (`dependency_graph().blocks`) is a correct, edge-compatible SCC decomposition -/
+alias dependency_blocks_correct := Genlm.tarjanBlocks_isSccDecomp
 end Genlm.Props.C08
